@@ -29,6 +29,7 @@ def gen_case(rng, nmax=25):
             'bandwidth': bw, 'model': rng.choice(['compass', 'triangle']), 'n_lags': rng.randint(2, 8),
             'estimator': rng.choice(['matheron', 'cressie', 'dowd']), 'bin_func': rng.choice(['even', 'even', 'uniform']),
             'maxlag': rng.choice([None, None, 0.6, 'median']), 'dist_func': rng.choice(['euclidean', 'euclidean', 'euclidean', 'cityblock', 'chebyshev']),
+            'coords_dtype': (rng.choice([None, 'uint16', 'int32', 'uint8']) if (np.all(c == np.round(c)) and c.min() >= 0 and c.max() < 250) else None),
             'tags': {'points': kind, 'n': len(c)}}
 
 
@@ -39,6 +40,8 @@ def build(case, **over):
     kw.update(over)
     coords = np.array(over.pop('coords', case['coords']), float) if 'coords' in over else np.array(case['coords'], float)
     kw.pop('coords', None)
+    if case.get('coords_dtype') and 'coords' not in over and np.all(coords == np.round(coords)) and coords.min() >= 0:
+        coords = coords.astype(case['coords_dtype'])          # pixel / raster indices are legitimate coordinates
     return DirectionalVariogram(coords, np.array(case['values'], float), **kw)
 
 
